@@ -41,7 +41,7 @@ def generate(rng, tier='quick', **kw):
     if k < 0.04:
       ops.append({'g': 3, 'op': 'agg'})                     # a reader aggregates while the writers run
     elif k < 0.3:
-      ops.append({'g': g, 'op': 'count', 'obj': o, 'amt': rng.choice([1, 1, 1, 2, 5, 0]),
+      ops.append({'g': g, 'op': 'count', 'obj': o, 'amt': rng.choice([1, 1, 1, 2, 5, 0, -1, -2]),
                   'name': rng.choice(['count', 'count', 'count2', 'count3'])})
     elif k < 0.45:
       ops.append({'g': g, 'op': 'rate', 'obj': o})
@@ -118,6 +118,8 @@ def run(scn):
     before = snapshot()
     n_metrics = len(VarzReceiver.VARZ_DATA)
     agg_state['running'] += 1
+    win = {}        # (name, series key) -> [lowest, highest] value the series had while this aggregation ran
+    windows.append(win)
     REC.probe('aggregate_while_writing')
     try:
       a = VarzAggregator.Aggregate(VarzReceiver.VARZ_DATA, VarzReceiver.VARZ_METRICS)
@@ -127,13 +129,18 @@ def run(scn):
       return
     finally:
       agg_state['running'] -= 1
+      windows.remove(win)
     after = snapshot()
     for name in COUNTERS:
+      # every series is read at some moment of the window; increments may be
+      # negative, so the bounds are the sums of each series' lowest / highest value
       lo, hi = {}, {}
-      for kk, w in before[name].items():
-        lo[(kk[1], kk[3])] = lo.get((kk[1], kk[3]), 0) + w
-      for kk, w in after[name].items():
-        hi[(kk[1], kk[3])] = hi.get((kk[1], kk[3]), 0) + w
+      for kk in set(before[name]) | set(after[name]):
+        b0, a0 = before[name].get(kk, 0), after[name].get(kk, 0)
+        mn, mx = win.get((name, kk), (b0, b0))
+        k2 = (kk[1], kk[3])
+        lo[k2] = lo.get(k2, 0) + min(b0, a0, mn)
+        hi[k2] = hi.get(k2, 0) + max(b0, a0, mx)
       for k2, h in hi.items():
         got = a.get(metric_of(name), {}).get(k2)
         got = 0 if got is None else got.total
@@ -143,6 +150,15 @@ def run(scn):
                           metric_of(name), k2, got, lo.get(k2, 0), h), {'metric': name, 'concurrent': True})
   last_writer = {}
   hist = {}
+  windows = []
+
+  def touched(name, kk, value):
+    for win in windows:
+      mm = win.get((name, kk))
+      if mm is None:
+        win[(name, kk)] = [value, value]
+      else:
+        mm[0], mm[1] = min(mm[0], value), max(mm[1], value)
 
   def worker(g):
     for op in scn['ops']:
@@ -164,10 +180,14 @@ def run(scn):
         nm = op.get('name', 'count')
         target(k, op, nm)(op['amt'])
         nm = mname(k, nm)
-        model[nm][kk] = model[nm].get(kk, 0) + op['amt']
+        old = model[nm].get(kk, 0)
+        touched(nm, kk, old)
+        model[nm][kk] = old + op['amt']
+        touched(nm, kk, model[nm][kk])
       elif op['op'] == 'rate':
         target(k, op, 'rate')()
         model[mname(k, 'rate')][kk] = model[mname(k, 'rate')].get(kk, 0) + 1
+        touched(mname(k, 'rate'), kk, model[mname(k, 'rate')][kk])
       elif op['op'] == 'gauge':
         target(k, op, 'gauge')(op['val'])
         h = hist.setdefault((cls_of[k], kk), [])
